@@ -69,54 +69,64 @@ def optOf (isMax signed : Bool) (bits : Nat) : List Nat → Option Nat
       if isMax then (if key signed bits w > key signed bits best then w else best)
       else (if key signed bits w < key signed bits best then w else best)) v)
 
-def judgeFin (dom : List Asg) (cs : List Con) (op : Op) (out : Out) : Option String :=
+/-- the test, given the list `ms` of assignments (of the finite domain) that satisfy the user constraints and the
+extra constraints of the call -/
+def judgeModels (ms : List Asg) (op : Op) (out : Out) : Option String :=
   let chk (b : Bool) (why : String) : Option String := if b then none else some why
   match op, out with
   | .add _, .cons _ => none
   | .simplify, .cons _ => none
   | .downsize, .unit => none
   | .branch, .newSolver _ => none
-  | .satisfiable extra, .bool b => chk (b == !(modelsOn dom (cs ++ extra)).isEmpty) "wrong-sat"
-  | .eval e n extra, .vals vs =>
+  | .satisfiable _, .bool b => chk (b == !ms.isEmpty) "wrong-sat"
+  | .eval e n _, .vals vs =>
     (match e.conc with
      | some c => chk (vs == [c]) "wrong-constant"
      | none =>
-       let V := dedupNat ((modelsOn dom (cs ++ extra)).map e.val)
+       let V := dedupNat (ms.map e.val)
        if !(vs.all V.contains) then some "infeasible"
        else if dedupNat vs != vs then some "duplicate"
        else if vs.length > n then some "too-many"
        else chk (vs.length == min n V.length) "incomplete")
-  | .batchEval es n extra, .tuples ts =>
+  | .batchEval es n _, .tuples ts =>
     if es.all (·.conc.isSome) then chk (ts == [es.map fun e => e.conc.getD 0]) "wrong-constant"
     else
-      let V := ((modelsOn dom (cs ++ extra)).map fun a => es.map (·.val a)).foldl listInsert []
+      let V := (ms.map fun a => es.map (·.val a)).foldl listInsert []
       if !(ts.all V.contains) then some "infeasible"
       else if ts.foldl listInsert [] != ts then some "duplicate"
       else if ts.length > n then some "too-many"
       else chk (ts.length == min n V.length) "incomplete"
-  | .min e extra signed, .int i =>
+  | .min e _ signed, .int i =>
     (match e.conc with
      | some c => chk (i == (c : Int)) "wrong-constant"
-     | none => chk (optOf false signed e.bits ((modelsOn dom (cs ++ extra)).map e.val) == some (wrap e.bits i)) "wrong-optimum")
-  | .max e extra signed, .int i =>
+     | none => chk (optOf false signed e.bits (ms.map e.val) == some (wrap e.bits i)) "wrong-optimum")
+  | .max e _ signed, .int i =>
     (match e.conc with
      | some c => chk (i == (c : Int)) "wrong-constant"
-     | none => chk (optOf true signed e.bits ((modelsOn dom (cs ++ extra)).map e.val) == some (wrap e.bits i)) "wrong-optimum")
-  | .solution e v extra, .bool b =>
+     | none => chk (optOf true signed e.bits (ms.map e.val) == some (wrap e.bits i)) "wrong-optimum")
+  | .solution e v _, .bool b =>
     (match e.conc with
      | some c => chk (b == (c == v)) "wrong-constant"
-     | none => chk (b == ((modelsOn dom (cs ++ extra)).map e.val).contains v) "wrong-solution")
-  | .isTrue c extra, .bool b => chk (!b || (modelsOn dom (cs ++ extra)).all c.sem) "unsound-is_true"
-  | .isFalse c extra, .bool b => chk (!b || (modelsOn dom (cs ++ extra)).all fun a => !c.sem a) "unsound-is_false"
-  | .eval _ _ extra, .err .unsat => chk (modelsOn dom (cs ++ extra)).isEmpty "spurious-unsat"
-  | .batchEval _ _ extra, .err .unsat => chk (modelsOn dom (cs ++ extra)).isEmpty "spurious-unsat"
-  | .min _ extra _, .err .unsat => chk (modelsOn dom (cs ++ extra)).isEmpty "spurious-unsat"
-  | .max _ extra _, .err .unsat => chk (modelsOn dom (cs ++ extra)).isEmpty "spurious-unsat"
-  | .solution _ _ extra, .err .unsat => chk (modelsOn dom (cs ++ extra)).isEmpty "spurious-unsat"
-  | .isTrue _ extra, .err .unsat => chk (modelsOn dom (cs ++ extra)).isEmpty "spurious-unsat"
-  | .isFalse _ extra, .err .unsat => chk (modelsOn dom (cs ++ extra)).isEmpty "spurious-unsat"
+     | none => chk (b == (ms.map e.val).contains v) "wrong-solution")
+  | .isTrue c _, .bool b => chk (!b || ms.all c.sem) "unsound-is_true"
+  | .isFalse c _, .bool b => chk (!b || ms.all fun a => !c.sem a) "unsound-is_false"
+  | .eval _ _ _, .err .unsat => chk ms.isEmpty "spurious-unsat"
+  | .batchEval _ _ _, .err .unsat => chk ms.isEmpty "spurious-unsat"
+  | .min _ _ _, .err .unsat => chk ms.isEmpty "spurious-unsat"
+  | .max _ _ _, .err .unsat => chk ms.isEmpty "spurious-unsat"
+  | .solution _ _ _, .err .unsat => chk ms.isEmpty "spurious-unsat"
+  | .isTrue _ _, .err .unsat => chk ms.isEmpty "spurious-unsat"
+  | .isFalse _ _, .err .unsat => chk ms.isEmpty "spurious-unsat"
   | .unsatCore _, .cons _ => none
   | _, .err .giveUp => none
   | _, _ => some "unexpected-outcome"
+
+def Op.extra : Op → List Con
+  | .satisfiable ex | .eval _ _ ex | .batchEval _ _ ex | .min _ ex _ | .max _ ex _ | .solution _ _ ex
+  | .isTrue _ ex | .isFalse _ ex | .unsatCore ex => ex
+  | _ => []
+
+def judgeFin (dom : List Asg) (cs : List Con) (op : Op) (out : Out) : Option String :=
+  judgeModels (modelsOn dom (cs ++ op.extra)) op out
 
 end Claripy.Solver
